@@ -13,7 +13,8 @@ REPO = os.path.abspath(os.environ.get("VERIF_REPO", "/repo"))
 SEED = int(os.environ.get("VERIF_SEED", "0") or 0)
 JOBS = int(os.environ.get("VERIF_JOBS", "0") or 0) or min(16, os.cpu_count() or 4)
 GUARD = "AGH_A2S_PYHMS_VERIF"
-EVIDENCE_DIR = os.path.join(VERIF_DIR, "evidence")
+# VERIF_EVIDENCE_DIR redirects evidence + replays (used when the checks are aimed at a seeded-defect copy)
+EVIDENCE_DIR = os.environ.get("VERIF_EVIDENCE_DIR") or os.path.join(VERIF_DIR, "evidence")
 REPLAY_DIR = os.path.join(EVIDENCE_DIR, "replays")
 KNOWN_FINDINGS = os.path.join(VERIF_DIR, "known_findings.json")
 PYTHON = os.environ.get("VERIF_PYTHON", "/venv/bin/python")
